@@ -226,3 +226,24 @@ def shares_storage(a, b):
             if np.shares_memory(np.asarray(va), np.asarray(vb)):
                 return True
     return False
+
+
+def storage_variant(rng, a):
+    """the same category values stored in another NumPy dtype that holds them exactly (a caller's array is rarely int64:
+    bool for 0/1 indicators, uint8 codes, int32 ...); returns (array, dtype name)"""
+    flat = a.reshape(-1)
+    lo = int(flat.min()) if flat.size else 0
+    hi = int(flat.max()) if flat.size else 0
+    names = ["int64"]
+    for nm in ("int8", "int16", "int32"):
+        info = np.iinfo(nm)
+        if info.min <= lo and hi <= info.max:
+            names.append(nm)
+    if lo >= 0:
+        for nm in ("uint8", "uint16", "uint32", "uint64"):
+            if hi <= np.iinfo(nm).max:
+                names.append(nm)
+        if hi <= 1:
+            names += ["bool", "bool"]
+    nm = rng.choice(names)
+    return a.astype(nm), nm
